@@ -7,6 +7,8 @@ import ChibiVerif.Lemmas.LinkageFnSym
 namespace ChibiVerif.Linkage
 open ChibiVerif.Spec.Linkage
 
+variable [Rules]
+
 /-! ### small membership facts -/
 
 theorem mem_namedOf {l : List Sym} {n : Name} : n ∈ namedOf l ↔ Sym.named n ∈ l := by
@@ -84,10 +86,11 @@ theorem initRefs_any {items : List InitItem} {n : Name} (h : n ∈ initFnRefs it
     | ref r => exact ⟨_, hit, rfl⟩
     | str => cases hh
 
-def emittedP (o : Obj) : Bool := if o.isFunction then o.isDefinition && o.isLive else o.isDefinition
+def emittedP (gs : List Obj) (o : Obj) : Bool :=
+  if o.isFunction then o.isDefinition && o.isLive else o.isDefinition && ownerLive gs o
 
 theorem mem_emittedUses {gs : List Obj} {s : Sym} :
-    s ∈ emittedUses gs ↔ ∃ o, o ∈ gs ∧ emittedP o = true ∧ s ∈ o.uses := by
+    s ∈ emittedUses gs ↔ ∃ o, o ∈ gs ∧ emittedP gs o = true ∧ s ∈ o.uses := by
   unfold emittedUses
   rw [List.mem_flatMap]
   constructor
@@ -171,17 +174,30 @@ theorem fnEmitted_iff {f : Name} {o0 : Obj} (h0 : findFunc st.globals f = some o
     rw [u.live_iff_needed p hD]
     simp
 
-/-- **the identifiers mentioned by what is printed are the Spec's `usedNames`** -/
-theorem uses_iff (n : Name) : Sym.named n ∈ emittedUses gs ↔ n ∈ usedNames ds ∨ n ∈ deadStaticLocalRefs ds := by
+omit u in
+/-- `var->owner->is_live` for a datum of the body of `f`, in Spec terms -/
+theorem ownerLive_of_owner {o : Obj} {f : Name} (ho : o.owner = some f) : ownerLive gs o = liveFn gs1 f := by
+  simp only [ownerLive, liveFn, ho]
+  rw [p.findFunc_gs]
+  cases findFunc gs1 f <;> rfl
+
+omit u p in
+theorem ownerOf_some (f : Name) : ownerOf (some f) = if Rules.ownedData then some f else none := rfl
+
+/-- **the identifiers mentioned by what is printed are the Spec's `usedNames`** (for the code without `Rules.ownedData`:
+    and those in initializers of static locals of functions that are not emitted) -/
+theorem uses_iff (n : Name) : Sym.named n ∈ emittedUses gs ↔
+    n ∈ usedNames ds ∨ (Rules.ownedData = false ∧ n ∈ deadStaticLocalRefs ds) := by
   rw [mem_emittedUses, mem_usedNames]
   constructor
   · rintro ⟨o, ho, hP, hn⟩
     cases hf : o.isFunction
     · -- a datum
-      obtain ⟨a, ha, _, T, rfl⟩ := p.data_of_mem ho hf
+      obtain ⟨a, ha, _, _, T, rfl⟩ := p.data_of_mem ho hf
       have hn' : Sym.named n ∈ a.uses := hn
       cases allNews_kind ds 0 a ha with
-      | @var x s e t ty init k hd =>
+      | @var x s e t ty init k pre post hd =>
+        have hd := mem_of_split hd
         rw [varObj_uses] at hn'
         cases init with
         | none => cases hn'
@@ -189,7 +205,7 @@ theorem uses_iff (n : Name) : Sym.named n ∈ emittedUses gs ↔ n ∈ usedNames
           rcases named_mem_initLabels.mp hn' with h | h
           · exact Or.inl (Or.inl (mem_fileFnRefs.mpr ⟨x, s, e, t, ty, items, hd, h⟩))
           · exact Or.inl (Or.inr (Or.inl (mem_fileObjRefs.mpr ⟨x, s, e, t, ty, items, hd, h⟩)))
-      | ext hd hb => simp [externO] at hn'
+      | ext stc hd hb => simp [externO] at hn'
       | @sl f m s e i b tls ty init k hd hb =>
         cases init with
         | none => simp [slObj] at hn'
@@ -201,9 +217,25 @@ theorem uses_iff (n : Name) : Sym.named n ∈ emittedUses gs ↔ n ∈ usedNames
           have hdef : fnDefined (fnDecls ds f) = true := by
             unfold fnDefined; rw [List.any_eq_true]; exact ⟨_, hmem, rfl⟩
           cases hem : fnEmitted ds f
-          · -- a static local of a function that is not emitted: the datum is emitted all the same
-            right
-            exact mem_deadStaticLocalRefs.mpr ⟨f, hfn, hdef, hem, tls, ty, items, by rw [← hbody]; exact hb, hrefs⟩
+          · -- a static local of a function that is not emitted
+            cases hD : Rules.ownedData
+            · right
+              exact ⟨rfl, mem_deadStaticLocalRefs.mpr ⟨f, hfn, hdef, hem, tls, ty, items, by rw [← hbody]; exact hb, hrefs⟩⟩
+            · -- the repaired code does not print the datum
+              exfalso
+              have hown : ({ slObj f k tls ty (some items) with ty := T } : Obj).owner = some f := by
+                simp [slObj, ownerOf_some, hD]
+              have hP' : ownerLive gs { slObj f k tls ty (some items) with ty := T } = true := by
+                cases hol : ownerLive gs { slObj f k tls ty (some items) with ty := T }
+                · exfalso
+                  unfold emittedP at hP
+                  rw [if_neg (by rw [hf]; simp), hol, Bool.and_false] at hP
+                  cases hP
+                · rfl
+              rw [ownerLive_of_owner p hown] at hP'
+              obtain ⟨o0, h0⟩ := fn_exists p hfn
+              have := (fnEmitted_iff u p h0).mpr ⟨by rw [isDefinition_parse p.hst h0]; exact hdef, hP'⟩
+              rw [hem] at this; cases this
           · refine Or.inl (Or.inr (Or.inr ⟨f, hfn, hem, ?_⟩))
             rw [← hbody]
             rcases hrefs with h | h
@@ -228,23 +260,41 @@ theorem uses_iff (n : Name) : Sym.named n ∈ emittedUses gs ↔ n ∈ usedNames
       · exact Or.inr (mem_bodyObjRefs.mpr (Or.inl h))
   · -- every used name is mentioned by an emitted object
     have fromVar : ∀ x s e t ty items, Decl.obj x s e t ty (some items) ∈ ds → (n ∈ initFnRefs items ∨ n ∈ initObjRefs items) →
-        ∃ o, o ∈ gs ∧ emittedP o = true ∧ Sym.named n ∈ o.uses := by
+        ∃ o, o ∈ gs ∧ emittedP gs o = true ∧ Sym.named n ∈ o.uses := by
       intro x s e t ty items hd hr
-      obtain ⟨k, hk⟩ := var_mem_allNews ds 0 hd
-      exact ⟨_, p.mem_of_data_nt hk rfl, rfl, named_mem_initLabels.mpr hr⟩
-    have viaSL' : ∀ f, fnDefined (fnDecls ds f) = true → ∀ tls ty items,
+      obtain ⟨k, stc, hk⟩ := var_mem_allNews ds 0 env0 hd
+      obtain ⟨T2, hT2⟩ := preOne_same gs1 (varObj k x stc e t ty (some items))
+      refine ⟨_, p.mem_of_data_nt hk rfl, ?_, ?_⟩
+      · rw [hT2]; simp [emittedP, varObj, ownerLive]
+      · rw [hT2]; exact named_mem_initLabels.mpr hr
+    -- a static local of `f`, printed if `f` is live or the datum has no owner
+    have viaSL' : ∀ f, fnDefined (fnDecls ds f) = true → (Rules.ownedData = false ∨ liveFn gs1 f = true) → ∀ tls ty items,
         BodyItem.staticLocal tls ty (some items) ∈ fnBody (fnDecls ds f) →
-        (n ∈ initFnRefs items ∨ n ∈ initObjRefs items) → ∃ o, o ∈ gs ∧ emittedP o = true ∧ Sym.named n ∈ o.uses := by
-      intro f hdef tls ty items hb hr
+        (n ∈ initFnRefs items ∨ n ∈ initObjRefs items) → ∃ o, o ∈ gs ∧ emittedP gs o = true ∧ Sym.named n ∈ o.uses := by
+      intro f hdef hlive tls ty items hb hr
       obtain ⟨d, hd, hbd⟩ := mem_fnBody hdef
       obtain ⟨m, hm⟩ := mem_fnDecls.mp hd
       rw [hbd] at hm
-      obtain ⟨k, hk⟩ := sl_mem_allNews ds 0 hm hb
-      exact ⟨_, p.mem_of_data_nt hk rfl, rfl, named_mem_initLabels.mpr hr⟩
-    rintro ((h | h | ⟨f, hfn, hem, h⟩) | hdead)
+      obtain ⟨k, hk⟩ := sl_mem_allNews ds 0 env0 hm hb
+      obtain ⟨T2, hT2⟩ := preOne_same gs1 (slObj f k tls ty (some items))
+      refine ⟨_, p.mem_of_data_nt hk rfl, ?_, ?_⟩
+      · rw [hT2]
+        have hfo : ({ slObj f k tls ty (some items) with ty := T2 } : Obj).isFunction = false := rfl
+        have hdo : ({ slObj f k tls ty (some items) with ty := T2 } : Obj).isDefinition = true := rfl
+        simp only [emittedP, hfo, hdo, Bool.false_eq_true, if_false, Bool.true_and]
+        cases hD : Rules.ownedData
+        · have : ({ slObj f k tls ty (some items) with ty := T2 } : Obj).owner = none := by simp [slObj, ownerOf_some, hD]
+          exact ownerLive_of_noOwner gs this
+        · have hown : ({ slObj f k tls ty (some items) with ty := T2 } : Obj).owner = some f := by simp [slObj, ownerOf_some, hD]
+          rw [ownerLive_of_owner p hown]
+          rcases hlive with h | h
+          · rw [hD] at h; cases h
+          · exact h
+      · rw [hT2]; exact named_mem_initLabels.mpr hr
+    rintro ((h | h | ⟨f, hfn, hem, h⟩) | ⟨hD, hdead⟩)
     rotate_left 3
     · obtain ⟨f, _, hdef, _, tls, ty, items, hb, hr⟩ := mem_deadStaticLocalRefs.mp hdead
-      exact viaSL' f hdef tls ty items hb hr
+      exact viaSL' f hdef (Or.inl hD) tls ty items hb hr
     · obtain ⟨x, s, e, t, ty, items, hd, hg⟩ := mem_fileFnRefs.mp h
       exact fromVar x s e t ty items hd (Or.inl hg)
     · obtain ⟨x, s, e, t, ty, items, hd, hg⟩ := mem_fileObjRefs.mp h
@@ -254,7 +304,7 @@ theorem uses_iff (n : Name) : Sym.named n ∈ emittedUses gs ↔ n ∈ usedNames
       have hdef : fnDefined (fnDecls ds f) = true := by rw [← isDefinition_parse p.hst h0]; exact hP.1
       -- direct mention or static local
       have direct : (BodyItem.ref (.fn n) ∈ fnBody (fnDecls ds f) ∨ BodyItem.ref (.obj n) ∈ fnBody (fnDecls ds f)) →
-          ∃ o, o ∈ gs ∧ emittedP o = true ∧ Sym.named n ∈ o.uses := by
+          ∃ o, o ∈ gs ∧ emittedP gs o = true ∧ Sym.named n ∈ o.uses := by
         intro hd
         have hNU := NU_parse p.hst f (u.oneBody f) hdef
         simp only [NU, U, h0, Option.map_some, Option.some.injEq] at hNU
@@ -265,7 +315,7 @@ theorem uses_iff (n : Name) : Sym.named n ∈ emittedUses gs ↔ n ∈ usedNames
         · show Sym.named n ∈ o0.uses
           rw [← mem_namedOf, hNU]
           exact mem_directRefs.mpr hd
-      have viaSL := viaSL' f hdef
+      have viaSL := viaSL' f hdef (Or.inr hP.2)
       rcases h with h | h
       · rcases mem_bodyFnRefs.mp h with h | ⟨tls, ty, items, hb, hg⟩
         · exact direct (Or.inl h)
@@ -278,9 +328,9 @@ omit u in
 /-- a defined data object with an identifier is a file-scope variable -/
 theorem data_def_objName {o : Obj} {x : Name} (ho : o ∈ gs) (hf : o.isFunction = false) (hd : o.isDefinition = true)
     (hs : o.sym = .named x) : x ∈ objNames ds := by
-  obtain ⟨a, ha, _, T, rfl⟩ := p.data_of_mem ho hf
-  rcases (allNews_kind ds 0 a ha).named hs with ⟨s, e, t, ty, init, k, hdd, _⟩ | ⟨f, n, s, e, i, b, tls, ty, _, _, rfl⟩
-  · exact mem_objNames_of_mem hdd
+  obtain ⟨a, ha, _, _, T, rfl⟩ := p.data_of_mem ho hf
+  rcases (allNews_kind ds 0 a ha).named hs with ⟨s, e, t, ty, init, k, pre, post, hdd, _⟩ | ⟨f, n, s, e, i, b, tls, ty, stc, _, _, rfl⟩
+  · exact mem_objNames_of_mem (mem_of_split hdd)
   · cases hd
 
 /-- what the output defines is what the Spec says is defined -/
@@ -292,10 +342,10 @@ theorem definedHere_iff (n : Name) : definedHere ds n = true ↔ specDefined ds 
   simp [definedHere, specDefined]
 
 theorem defined_iff (n : Name) :
-    (∃ o, o ∈ gs ∧ o.sym = .named n ∧ ((o.isFunction = false ∧ o.isDefinition = true) ∨
+    (∃ o, o ∈ gs ∧ o.sym = .named n ∧ ((o.isFunction = false ∧ o.isDefinition = true ∧ ownerLive gs o = true) ∨
       (o.isFunction = true ∧ o.isDefinition = true ∧ o.isLive = true))) ↔ specDefined ds n := by
   constructor
-  · rintro ⟨o, ho, hs, (⟨hf, hd⟩ | ⟨hf, hd, hl⟩)⟩
+  · rintro ⟨o, ho, hs, (⟨hf, hd, _⟩ | ⟨hf, hd, hl⟩)⟩
     · have hx := data_def_objName p ho hf hd hs
       exact Or.inl ⟨hx, (data_entry p (u.objs n hx) true ho hf hd hs).1⟩
     · obtain ⟨f, o0, h0, rfl⟩ := p.fn_of_mem ho hf
@@ -309,7 +359,8 @@ theorem defined_iff (n : Name) :
       exact Or.inr ⟨fn_declared_of_find p h0, (fnEmitted_iff u p h0).mpr ⟨hd, hl⟩⟩
   · rintro (⟨hx, hD⟩ | ⟨hf, hem⟩)
     · obtain ⟨o, ho, hfo, hdo, hso⟩ := data_exists p (u.objs n hx) hD
-      exact ⟨o, ho, hso, Or.inl ⟨hfo, hdo⟩⟩
+      have hown := (data_entry p (u.objs n hx) true ho hfo hdo hso).2.1
+      exact ⟨o, ho, hso, Or.inl ⟨hfo, hdo, ownerLive_of_noOwner gs hown⟩⟩
     · obtain ⟨o0, h0⟩ := fn_exists p hf
       have hP := (fnEmitted_iff u p h0).mp hem
       have hp' := List.find?_some h0
@@ -379,7 +430,7 @@ theorem asmView_sym (e : SymEntry) : (asmView e).sym = e.sym := by
 
 theorem emit_defined {fc : Bool} {gs : List Obj} {s : Sym} :
     (emit fc gs).any (fun e => e.sym == s) = true ↔
-      ∃ o, o ∈ gs ∧ o.sym = s ∧ ((o.isFunction = false ∧ o.isDefinition = true) ∨
+      ∃ o, o ∈ gs ∧ o.sym = s ∧ ((o.isFunction = false ∧ o.isDefinition = true ∧ ownerLive gs o = true) ∨
         (o.isFunction = true ∧ o.isDefinition = true ∧ o.isLive = true)) := by
   unfold emit emitData emitText
   rw [List.any_append, Bool.or_eq_true, List.any_eq_true, List.any_eq_true]
@@ -387,11 +438,12 @@ theorem emit_defined {fc : Bool} {gs : List Obj} {s : Sym} :
   · rintro (⟨e, he, hs⟩ | ⟨e, he, hs⟩)
     · rw [List.mem_filterMap] at he
       obtain ⟨o, ho, hoe⟩ := he
+      rw [List.mem_filter] at ho
       have h1 := emitDataVar_isSome fc o
       rw [hoe] at h1
       simp only [Option.isSome_some, Bool.true_eq, Bool.and_eq_true, Bool.not_eq_true'] at h1
       have h2 := emitDataVar_sym hoe
-      exact ⟨o, ho, by rw [← h2]; simpa using hs, Or.inl h1⟩
+      exact ⟨o, ho.1, by rw [← h2]; simpa using hs, Or.inl ⟨h1.1, h1.2, ho.2⟩⟩
     · rw [List.mem_filterMap] at he
       obtain ⟨o, ho, hoe⟩ := he
       unfold emitTextFn at hoe
@@ -404,14 +456,14 @@ theorem emit_defined {fc : Bool} {gs : List Obj} {s : Sym} :
           subst hoe
           simp only [Bool.or_eq_true, Bool.not_eq_true', not_or, Bool.not_eq_false] at h1 h2
           exact ⟨o, ho, by simpa using hs, Or.inr ⟨h1.1, h1.2, h2⟩⟩
-  · rintro ⟨o, ho, hs, (⟨hf, hd⟩ | ⟨hf, hd, hl⟩)⟩
+  · rintro ⟨o, ho, hs, (⟨hf, hd, hol⟩ | ⟨hf, hd, hl⟩)⟩
     · left
       have h1 := emitDataVar_isSome fc o
       rw [hf, hd] at h1
       cases hoe : emitDataVar fc o with
       | none => rw [hoe] at h1; cases h1
       | some e =>
-        exact ⟨e, List.mem_filterMap.mpr ⟨o, ho, hoe⟩, by rw [emitDataVar_sym hoe, hs]; simp⟩
+        exact ⟨e, List.mem_filterMap.mpr ⟨o, List.mem_filter.mpr ⟨ho, hol⟩, hoe⟩, by rw [emitDataVar_sym hoe, hs]; simp⟩
     · right
       refine ⟨⟨o.sym, bindingOf o, .text, none, 0⟩, List.mem_filterMap.mpr ⟨o, ho, ?_⟩, by simp [hs]⟩
       simp [emitTextFn, hf, hd, hl]
@@ -424,7 +476,7 @@ theorem mem_undefs {fc : Bool} {gs : List Obj} {s : Sym} :
 
 theorem mem_objectSymbols {fc : Bool} {gs : List Obj} {e : SymEntry} :
     e ∈ objectSymbols fc gs ↔ (∃ n, e.sym = .named n) ∧
-      ((∃ o, o ∈ gs ∧ (emitDataVar fc o).map asmView = some e) ∨ (∃ o, o ∈ gs ∧ emitTextFn o = some e) ∨
+      ((∃ o, o ∈ gs ∧ ownerLive gs o = true ∧ (emitDataVar fc o).map asmView = some e) ∨ (∃ o, o ∈ gs ∧ emitTextFn o = some e) ∨
        (∃ s, s ∈ undefs fc gs ∧ e = undefEntry s)) := by
   unfold objectSymbols
   rw [List.mem_filter, List.mem_append, List.mem_map, List.mem_map]
@@ -439,7 +491,8 @@ theorem mem_objectSymbols {fc : Bool} {gs : List Obj} {e : SymEntry} :
     · unfold emit emitData emitText at he'
       rw [List.mem_append, List.mem_filterMap, List.mem_filterMap] at he'
       rcases he' with ⟨o, ho, hoe⟩ | ⟨o, ho, hoe⟩
-      · exact Or.inl ⟨o, ho, by rw [hoe]; rfl⟩
+      · rw [List.mem_filter] at ho
+        exact Or.inl ⟨o, ho.1, ho.2, by rw [hoe]; rfl⟩
       · right; left
         refine ⟨o, ho, ?_⟩
         rw [hoe]
@@ -455,7 +508,7 @@ theorem mem_objectSymbols {fc : Bool} {gs : List Obj} {e : SymEntry} :
     · exact Or.inr (Or.inr ⟨s, hs, rfl⟩)
   · rintro ⟨⟨n, hn⟩, h⟩
     refine ⟨?_, by rw [hn]⟩
-    rcases h with ⟨o, ho, hoe⟩ | ⟨o, ho, hoe⟩ | ⟨s, hs, rfl⟩
+    rcases h with ⟨o, ho, hol, hoe⟩ | ⟨o, ho, hoe⟩ | ⟨s, hs, rfl⟩
     · left
       cases hd : emitDataVar fc o with
       | none => rw [hd] at hoe; cases hoe
@@ -464,7 +517,7 @@ theorem mem_objectSymbols {fc : Bool} {gs : List Obj} {e : SymEntry} :
         simp only [Option.map_some, Option.some.injEq] at hoe
         refine ⟨e', ?_, hoe⟩
         unfold emit emitData
-        exact List.mem_append_left _ (List.mem_filterMap.mpr ⟨o, ho, hd⟩)
+        exact List.mem_append_left _ (List.mem_filterMap.mpr ⟨o, List.mem_filter.mpr ⟨ho, hol⟩, hd⟩)
     · left
       refine ⟨e, ?_, ?_⟩
       · unfold emit emitText
@@ -504,7 +557,7 @@ theorem symbols_iff {ds : List Decl} (u : UnitOK ds) {st : PState} {gs1 gs : Lis
     fun n => emit_defined.trans (defined_iff u p n)
   constructor
   · rintro ⟨⟨n, hsym⟩, h⟩
-    rcases h with ⟨o, ho, hoe⟩ | ⟨o, ho, hoe⟩ | ⟨s, hs, rfl⟩
+    rcases h with ⟨o, ho, _, hoe⟩ | ⟨o, ho, hoe⟩ | ⟨s, hs, rfl⟩
     · -- a datum
       cases hd : emitDataVar fc o with
       | none => rw [hd] at hoe; cases hoe
@@ -517,7 +570,7 @@ theorem symbols_iff {ds : List Decl} (u : UnitOK ds) {st : PState} {gs1 gs : Lis
           simp only [Option.map_some, Option.some.injEq] at hoe
           rw [← emitDataVar_sym hd, ← asmView_sym, hoe, hsym]
         have hx := data_def_objName p ho h1.1 h1.2 hs
-        obtain ⟨hD, hent⟩ := data_entry p (u.objs n hx) fc ho h1.1 h1.2 hs
+        obtain ⟨hD, _, hent⟩ := data_entry p (u.objs n hx) fc ho h1.1 h1.2 hs
         rw [hoe] at hent
         exact Or.inr (Or.inl ⟨n, hx, by rw [objSymbol_defined hD, hent]⟩)
     · -- a function
@@ -544,10 +597,13 @@ theorem symbols_iff {ds : List Decl} (u : UnitOK ds) {st : PState} {gs1 gs : Lis
         intro hsd
         rw [(hdefd n).mpr hsd] at hnd; cases hnd
       have hused : n ∈ usedNames ds := by
-        rcases (uses_iff u p n).mp hu with h | h
+        rcases (uses_iff u p n).mp hu with h | ⟨hD0, h⟩
         · exact h
         · -- named only by a static local of a dead function: outside the region it is used or defined anyway
-          have hr := u.noDeadSL
+          have hr : deadStaticLocalVisibleRegion ds = false := by
+            rcases u.noDeadSL with h' | h'
+            · rw [hD0] at h'; cases h'
+            · exact h'
           unfold deadStaticLocalVisibleRegion at hr
           rw [List.any_eq_false] at hr
           have := hr n h
@@ -629,8 +685,8 @@ theorem symbols_iff {ds : List Decl} (u : UnitOK ds) {st : PState} {gs1 gs : Lis
         simp only [Option.some.injEq] at hos
         subst hos
         obtain ⟨o, ho, hfo, hdo, hso⟩ := data_exists p ok hD
-        obtain ⟨_, hent⟩ := data_entry p ok fc ho hfo hdo hso
-        exact ⟨⟨x, rfl⟩, Or.inl ⟨o, ho, hent⟩⟩
+        obtain ⟨_, hown, hent⟩ := data_entry p ok fc ho hfo hdo hso
+        exact ⟨⟨x, rfl⟩, Or.inl ⟨o, ho, ownerLive_of_noOwner gs hown, hent⟩⟩
     · refine ⟨⟨x, rfl⟩, Or.inr (Or.inr ⟨.named x, mem_undefs.mpr ⟨(uses_iff u p x).mpr (Or.inl hused), ?_⟩, rfl⟩)⟩
       cases hany : (emit fc gs).any (fun e => e.sym == Sym.named x)
       · rfl
@@ -641,35 +697,47 @@ theorem symbols_iff {ds : List Decl} (u : UnitOK ds) {st : PState} {gs1 gs : Lis
 
 /-! ### from the decidable hypotheses of the theorem -/
 
-theorem unitOK_of {ds : List Decl} (hv : valid ds = true) (hf : flagsFrozenDefRegion ds = false)
-    (hd : deadStaticLocalVisibleRegion ds = false) (hc : compositeSizeRegion ds = false)
-    (he : externInitAfterStaticRegion ds = false) (hs : symbolsSide ds = true) : UnitOK ds := by
-  simp only [symbolsSide, Bool.and_eq_true, List.all_eq_true] at hs
-  refine ⟨hv, hs.1, fun x hx => ?_, hf, hd⟩
-  have hv' := hv
-  simp only [valid, Bool.and_eq_true, List.all_eq_true] at hv'
-  refine ⟨hv'.1.1.1.2 x hx, hs.2 x hx, fun hfn => ?_, fun hh => ?_, fun hh => ?_⟩
-  · have := hv'.1.1.2 x hfn
-    simp only [Bool.not_eq_true', List.contains_eq_mem, decide_eq_false_iff_not] at this
-    exact this.1 hx
-  · unfold externInitAfterStaticRegion at he
-    rw [List.any_eq_false] at he
-    have := he x hx
-    simp only [hh.1, hh.2, Bool.and_self] at this
-    exact this trivial
-  · unfold compositeSizeRegion at hc
-    rw [List.any_eq_false] at hc
-    have := hc x hx
-    simp only [hh.1, hh.2.1, hh.2.2.1, hh.2.2.2, Bool.not_false, Bool.and_self] at this
-    exact this trivial
+omit [Rules] in
+theorem mem_blockExterns' {ds : List Decl} {y : Name} {ty : ObjTy} (h : (y, ty) ∈ blockExterns ds) : (y, ty) ∈ blockExterns ds := h
 
-/-- **C15_symbols, outside the known-finding regions** (lemma form; Props/C15.lean states it with `InScope`) -/
-theorem symbols_partial_lemma (fcommon : Bool) {ds : List Decl} (hv : valid ds = true)
-    (hf : flagsFrozenDefRegion ds = false) (hd : deadStaticLocalVisibleRegion ds = false) (hc : compositeSizeRegion ds = false)
-    (he : externInitAfterStaticRegion ds = false) (hs : symbolsSide ds = true) :
+theorem unitOK_of {ds : List Decl} (hsc : symbolsScope ds = true) : UnitOK ds := by
+  simp only [symbolsScope, Bool.and_eq_true, Bool.or_eq_true, Bool.not_eq_true'] at hsc
+  obtain ⟨⟨⟨⟨hv, hf⟩, hd⟩, hc⟩, he⟩ := hsc
+  obtain ⟨_, hobj, hdis, _, _, hblk⟩ := valid_parts hv
+  refine ⟨hv, fun x hx => ?_, hf, hd⟩
+  refine ⟨hobj x hx, fun hfn => (hdis x hfn).1 hx, fun ty hb hk => ?_, ?_, ?_⟩
+  · unfold blockExternsAgree at hblk
+    rw [List.all_eq_true] at hblk
+    have := hblk (x, ty) hb
+    have hc' : (objNames ds).contains x = true := by simpa using hx
+    simp only [hc', Bool.not_true, Bool.false_or, Bool.and_eq_true, Bool.or_eq_true, beq_iff_eq] at this
+    rcases this.2 with h | h
+    · rw [hk] at h; cases h
+    · exact h
+  · rcases he with he | he
+    · exact Or.inl he
+    · right
+      intro hh
+      unfold externInitAfterStaticRegion at he
+      rw [List.any_eq_false] at he
+      have := he x hx
+      simp only [hh.1, hh.2, Bool.and_self] at this
+      exact this trivial
+  · rcases hc with hc | hc
+    · exact Or.inl hc
+    · right
+      intro hh
+      unfold compositeSizeRegion at hc
+      rw [List.any_eq_false] at hc
+      have := hc x hx
+      simp only [hh.1, hh.2.1, hh.2.2.1, hh.2.2.2, Bool.not_false, Bool.and_self] at this
+      exact this trivial
+
+/-- **C15_symbols, outside the regions of the known findings the code still has** (lemma form) -/
+theorem symbols_partial_lemma (fcommon : Bool) {ds : List Decl} (hsc : symbolsScope ds = true) :
     ∃ gs, parseUnit ds = .ok gs ∧ (∀ e, e ∈ objectSymbols fcommon gs ↔ e ∈ symbols fcommon ds) := by
-  have u := unitOK_of hv hf hd hc he hs
-  obtain ⟨st, hst⟩ := parse_ok hv u.ordered
+  have u := unitOK_of hsc
+  obtain ⟨st, hst⟩ := parse_ok u.valid
   obtain ⟨gs1, p⟩ := parsed_of_declAll hst
   exact ⟨scanGlobals gs1, p.parseUnit, fun e => symbols_iff u p fcommon e⟩
 
